@@ -7,12 +7,15 @@ package c02
 import (
 	"bytes"
 	"fmt"
+	"go/token"
 	"reflect"
 	"strings"
 	"testing"
 
 	"github.com/dave/dst"
 	"github.com/dave/dst/decorator"
+	"github.com/dave/dst/decorator/resolver/goast"
+	"github.com/dave/dst/decorator/resolver/guess"
 	"pgregory.net/rapid"
 
 	"verif/internal/h"
@@ -58,6 +61,7 @@ type kind struct {
 	elem     func(c Chunk) (first, rest string) // element text: first line (without trailing comment) and remaining lines
 	lists    func(f *dst.File) []reflect.Value  // settable slice values of list A (and B)
 	sep      string                             // text appended to the element before the trailing comment ("," for expression lists)
+	imports  bool                               // decorate / restore with import management (qualified identifiers as elements)
 }
 
 func fieldOf(n interface{}, name string) reflect.Value {
@@ -79,7 +83,7 @@ var kinds = map[string]kind{
 		},
 		func(f *dst.File) []reflect.Value {
 			return []reflect.Value{fieldOf(f.Decls[0].(*dst.FuncDecl).Body, "List"), fieldOf(f.Decls[1].(*dst.FuncDecl).Body, "List")}
-		}, ""},
+		}, "", false},
 	"decls": {"decls", false,
 		func(a, b string) string { return "package p\n\n" + a },
 		func(c Chunk) (string, string) {
@@ -88,7 +92,7 @@ var kinds = map[string]kind{
 			}
 			return "var v" + c.ID + " int", ""
 		},
-		func(f *dst.File) []reflect.Value { return []reflect.Value{fieldOf(f, "Decls")} }, ""},
+		func(f *dst.File) []reflect.Value { return []reflect.Value{fieldOf(f, "Decls")} }, "", false},
 	"specs": {"specs", true,
 		func(a, b string) string { return "package p\n\nvar (\n" + a + ")\n\nvar (\n" + b + ")\n" },
 		func(c Chunk) (string, string) {
@@ -103,7 +107,7 @@ var kinds = map[string]kind{
 		},
 		func(f *dst.File) []reflect.Value {
 			return []reflect.Value{fieldOf(f.Decls[0].(*dst.GenDecl), "Specs"), fieldOf(f.Decls[1].(*dst.GenDecl), "Specs")}
-		}, ""},
+		}, "", false},
 	"fields": {"fields", true,
 		func(a, b string) string {
 			return "package p\n\ntype SA struct {\n" + a + "}\n\ntype SB struct {\n" + b + "}\n"
@@ -118,7 +122,7 @@ var kinds = map[string]kind{
 			return []reflect.Value{
 				fieldOf(f.Decls[0].(*dst.GenDecl).Specs[0].(*dst.TypeSpec).Type.(*dst.StructType).Fields, "List"),
 				fieldOf(f.Decls[1].(*dst.GenDecl).Specs[0].(*dst.TypeSpec).Type.(*dst.StructType).Fields, "List")}
-		}, ""},
+		}, "", false},
 	"methods": {"methods", true,
 		func(a, b string) string {
 			return "package p\n\ntype IA interface {\n" + a + "}\n\ntype IB interface {\n" + b + "}\n"
@@ -128,7 +132,7 @@ var kinds = map[string]kind{
 			return []reflect.Value{
 				fieldOf(f.Decls[0].(*dst.GenDecl).Specs[0].(*dst.TypeSpec).Type.(*dst.InterfaceType).Methods, "List"),
 				fieldOf(f.Decls[1].(*dst.GenDecl).Specs[0].(*dst.TypeSpec).Type.(*dst.InterfaceType).Methods, "List")}
-		}, ""},
+		}, "", false},
 	"elems": {"elems", true,
 		func(a, b string) string {
 			return "package p\n\nvar xa = []T{\n" + a + "}\n\nvar xb = []T{\n" + b + "}\n"
@@ -143,7 +147,7 @@ var kinds = map[string]kind{
 			return []reflect.Value{
 				fieldOf(f.Decls[0].(*dst.GenDecl).Specs[0].(*dst.ValueSpec).Values[0].(*dst.CompositeLit), "Elts"),
 				fieldOf(f.Decls[1].(*dst.GenDecl).Specs[0].(*dst.ValueSpec).Values[0].(*dst.CompositeLit), "Elts")}
-		}, ","},
+		}, ",", false},
 	"args": {"args", true,
 		func(a, b string) string { return "package p\n\nvar xa = fa(\n" + a + ")\n\nvar xb = fb(\n" + b + ")\n" },
 		func(c Chunk) (string, string) { return "a" + c.ID, "" },
@@ -151,22 +155,65 @@ var kinds = map[string]kind{
 			return []reflect.Value{
 				fieldOf(f.Decls[0].(*dst.GenDecl).Specs[0].(*dst.ValueSpec).Values[0].(*dst.CallExpr), "Args"),
 				fieldOf(f.Decls[1].(*dst.GenDecl).Specs[0].(*dst.ValueSpec).Values[0].(*dst.CallExpr), "Args")}
-		}, ","},
+		}, ",", false},
 	"clauses": {"clauses", true,
 		func(a, b string) string {
 			return "package p\n\nfunc fa() {\n\tswitch x {\n" + a + "\t}\n}\n\nfunc fb() {\n\tswitch y {\n" + b + "\t}\n}\n"
 		},
-		func(c Chunk) (string, string) { return "case k" + c.ID + ":", "b" + c.ID + "()" },
+		func(c Chunk) (string, string) {
+			if c.Multi {
+				return "\tcase k" + c.ID + ":", "\t\t// body of k" + c.ID + " is only this comment" // an empty clause with a hanging comment (gofmt keeps a comment's column class, so the text carries real indentation)
+			}
+			return "case k" + c.ID + ":", "b" + c.ID + "()"
+		},
 		func(f *dst.File) []reflect.Value {
 			return []reflect.Value{
 				fieldOf(f.Decls[0].(*dst.FuncDecl).Body.List[0].(*dst.SwitchStmt).Body, "List"),
 				fieldOf(f.Decls[1].(*dst.FuncDecl).Body.List[0].(*dst.SwitchStmt).Body, "List")}
-		}, ""},
+		}, "", false},
+	"comms": {"comms", true,
+		func(a, b string) string {
+			return "package p\n\nfunc fa() {\n\tselect {\n" + a + "\t}\n}\n\nfunc fb() {\n\tselect {\n" + b + "\t}\n}\n"
+		},
+		func(c Chunk) (string, string) {
+			if c.Multi {
+				return "\tcase <-k" + c.ID + ":", "\t\t// body of k" + c.ID + " is only this comment"
+			}
+			return "case v := <-k" + c.ID + ":", "b" + c.ID + "(v)"
+		},
+		func(f *dst.File) []reflect.Value {
+			return []reflect.Value{
+				fieldOf(f.Decls[0].(*dst.FuncDecl).Body.List[0].(*dst.SelectStmt).Body, "List"),
+				fieldOf(f.Decls[1].(*dst.FuncDecl).Body.List[0].(*dst.SelectStmt).Body, "List")}
+		}, "", false},
+	"qelems": {"qelems", true,
+		func(a, b string) string {
+			return "package p\n\nimport \"io\"\n\nvar xa = []error{\n" + a + "}\n\nvar xb = []error{\n" + b + "}\n"
+		},
+		func(c Chunk) (string, string) { return "io.E" + c.ID, "" },
+		func(f *dst.File) []reflect.Value {
+			return []reflect.Value{
+				fieldOf(f.Decls[1].(*dst.GenDecl).Specs[0].(*dst.ValueSpec).Values[0].(*dst.CompositeLit), "Elts"),
+				fieldOf(f.Decls[2].(*dst.GenDecl).Specs[0].(*dst.ValueSpec).Values[0].(*dst.CompositeLit), "Elts")}
+		}, ",", true},
+	"qargs": {"qargs", true,
+		func(a, b string) string {
+			return "package p\n\nimport \"io\"\n\nvar xa = fa(\n" + a + ")\n\nvar xb = fb(\n" + b + ")\n"
+		},
+		func(c Chunk) (string, string) { return "io.A" + c.ID, "" },
+		func(f *dst.File) []reflect.Value {
+			return []reflect.Value{
+				fieldOf(f.Decls[1].(*dst.GenDecl).Specs[0].(*dst.ValueSpec).Values[0].(*dst.CallExpr), "Args"),
+				fieldOf(f.Decls[2].(*dst.GenDecl).Specs[0].(*dst.ValueSpec).Values[0].(*dst.CallExpr), "Args")}
+		}, ",", true},
 }
 
 // text renders one chunk.
 func (k kind) text(c Chunk) string {
 	var sb strings.Builder
+	if (k.name == "clauses" || k.name == "comms") && c.Multi {
+		c.Trail = false // the body is a comment line: nothing can trail it
+	}
 	for i := 0; i < c.Lead; i++ {
 		if c.BlockCmt {
 			fmt.Fprintf(&sb, "/* L-%s-%d */\n", c.ID, i)
@@ -188,7 +235,7 @@ func (k kind) text(c Chunk) string {
 	for i, l := range lines {
 		sb.WriteString(l)
 		if i == len(lines)-1 {
-			if k.name != "clauses" {
+			if k.name != "clauses" && k.name != "comms" {
 				sb.WriteString(k.sep)
 			}
 			if c.Trail {
@@ -292,6 +339,16 @@ func applyNodes(ls []reflect.Value, op Op) {
 func check(t h.TB, c Case) {
 	const sub = "Edit"
 	k := kinds[c.Kind]
+	if c.Kind == "clauses" || c.Kind == "comms" {
+		// a clause whose body is only a comment cannot have a trailing same-line comment
+		for _, l := range [][]Chunk{c.A, c.B} {
+			for i := range l {
+				if l[i].Multi {
+					l[i].Trail = false
+				}
+			}
+		}
+	}
 	src0 := k.file(c.A, c.B, c.Layout, c.Blanks)
 	src, fix, err := oracle.Canon([]byte(src0))
 	if err != nil {
@@ -301,15 +358,21 @@ func check(t h.TB, c Case) {
 		h.Exclude("gofmt not idempotent on the template")
 		return
 	}
-	f, err := decorator.Parse(src)
+	parse := func() (*dst.File, error) {
+		if k.imports {
+			return decorator.NewDecoratorWithImports(token.NewFileSet(), "p", goast.New()).Parse(src)
+		}
+		return decorator.Parse(src)
+	}
+	f, err := parse()
 	if err != nil {
 		t.Fatalf("harness: %v", err)
 	}
-	if un, err := printFile(f); err != nil || !bytes.Equal(un, src) {
+	if un, err := printFile(f, false, k.imports); err != nil || !bytes.Equal(un, src) {
 		h.Exclude("the unedited file does not round-trip (property C01 / an open finding of it)")
 		return
 	}
-	f, _ = decorator.Parse(src)
+	f, _ = parse()
 	lists := k.lists(f)
 	chunks := [][]Chunk{append([]Chunk{}, c.A...), append([]Chunk{}, c.B...)}
 	for _, op := range c.Ops {
@@ -317,7 +380,7 @@ func check(t h.TB, c Case) {
 		h.Guard(t, sub, c, func() { applyNodes(lists, op) })
 	}
 	var out []byte
-	h.Guard(t, sub, c, func() { out, err = printFile(f, c.Extras) })
+	h.Guard(t, sub, c, func() { out, err = printFile(f, c.Extras, k.imports) })
 	if err != nil {
 		h.Fail(t, sub, c, "printing the edited tree failed: %v", err)
 	}
@@ -407,7 +470,7 @@ func at(l []string, i int) string {
 
 // mentions reports whether a code line contains the identifier of element id (s<id>, v<id> ...).
 func mentions(line, id string) bool {
-	for _, p := range []string{"s", "c", "v", "d", "f", "m", "e", "a", "k", "t", "x", "b"} {
+	for _, p := range []string{"s", "c", "v", "d", "f", "m", "e", "a", "k", "t", "x", "b", "E", "A"} {
 		i := strings.Index(line, p+id)
 		for i >= 0 {
 			end := i + len(p+id)
@@ -424,11 +487,16 @@ func mentions(line, id string) bool {
 	return false
 }
 
-func printFile(f *dst.File, extras ...bool) (out []byte, err error) {
+func printFile(f *dst.File, opts ...bool) (out []byte, err error) {
 	var buf bytes.Buffer
-	if len(extras) > 0 && extras[0] {
+	extras := len(opts) > 0 && opts[0]
+	imports := len(opts) > 1 && opts[1]
+	if extras || imports {
 		r := decorator.NewRestorer()
-		r.Extras = true
+		if imports {
+			r = decorator.NewRestorerWithImports("p", guess.New())
+		}
+		r.Extras = extras
 		err = r.Fprint(&buf, f)
 		return buf.Bytes(), err
 	}
@@ -436,7 +504,7 @@ func printFile(f *dst.File, extras ...bool) (out []byte, err error) {
 	return buf.Bytes(), err
 }
 
-var kindNames = []string{"stmts", "decls", "specs", "fields", "methods", "elems", "args", "clauses"}
+var kindNames = []string{"stmts", "decls", "specs", "fields", "methods", "elems", "args", "clauses", "comms", "qelems", "qargs"}
 
 func genChunks(t *rapid.T, k kind, prefix string, n int) []Chunk {
 	var out []Chunk
@@ -469,6 +537,24 @@ func genCase(t *rapid.T) (Case, bool) {
 			nb = 3
 		}
 		c.B = genChunks(t, k, "2", nb)
+	}
+	if c.Kind == "clauses" || c.Kind == "comms" {
+		// whether a comment between two clauses hangs under the first or leads the second is a
+		// matter of its column; a case that has comment-only clause bodies therefore has no
+		// leading comments above clauses (and the other way round)
+		hang := false
+		for _, ch := range append(append([]Chunk{}, c.A...), c.B...) {
+			hang = hang || ch.Multi
+		}
+		if hang {
+			for i := range c.A {
+				c.A[i].Lead = 0
+			}
+			for i := range c.B {
+				c.B[i].Lead = 0
+			}
+			h.Label("clauses-with-comment-only-body")
+		}
 	}
 	if c.Layout == "irregular" {
 		for i := 0; i < len(c.A)+len(c.B); i++ {
